@@ -1,5 +1,7 @@
 import Proofs.OalLex
+import Proofs.OalTrack
 import PyxModel.Oal.LexGen
+import Gen.OalTrack
 
 /-!
   C13 — OAL parsing is total and its source positions are exact.
@@ -152,5 +154,72 @@ example : findColumn sample 9 = 1 ∧ colOf sample 9 = 1 ∧ lineOf sample 9 = 3
 
 /-- an illegal character is skipped, an unterminated comment falls apart into DIV TIMES ..., nothing is rejected -/
 example : (lex "x $ /* y".toList).map (fun t => String.ofList t.kind) = ["ID", "DIV", "TIMES", "ID"] := by decide
+
+
+/-! ## which tokens a node is stamped from: the production table of the parser (Gen/OalTrack.lean)
+
+  Model: PyxModel/Oal/Track.lean - yacc's position attributes (`tracking=1`) on the stack symbols and what
+  `track_production` / `set_positional_info` record from them.  A symbol reduced by an EMPTY production carries
+  `lexer.lexpos` / `lexer.lineno` of wherever the lexer is (past the look-ahead) and no end attributes; a production
+  that begins with such a symbol, or takes its end from one, would record a position outside its own tokens. -/
+
+open Pyx.OalTrack in
+/-- the nonterminal sets of the generated table are closed: every production of a `startSolid` (`endSolid`)
+    nonterminal is non-empty and begins (ends) with a token or a nonterminal of the same set; every production
+    of an `endOk` nonterminal is empty or ends that way; the nullable set is closed under the grammar -/
+theorem grammar_sets_ok : setsOk Gen.OalTrack.grammar = true := by decide +kernel
+
+open Pyx.OalTrack in
+/-- productions_tracked: every production function whose `p[0]` can be a statement / expression node carries
+    `@track_production` (unless it only passes its single symbol through) -/
+theorem productions_tracked : trackedOk Gen.OalTrack.grammar = true := by decide +kernel
+
+open Pyx.OalTrack in
+/-- every tracked production that returns a statement / expression node is non-empty, begins with a token or a
+    `startSolid` nonterminal, and - scanning back over symbols that may be empty, as `set_positional_info` does -
+    reaches a token or an `endSolid` nonterminal -/
+theorem productions_stamp_ok : stampsOk Gen.OalTrack.grammar = true := by decide +kernel
+
+open Pyx.OalTrack in
+/-- the invariant of the parser stack, for ANY table whose sets are closed: whatever sequence of shifts of exact
+    tokens and reductions by productions of the table produced a stack symbol, a symbol without end position
+    covers no token, a `startSolid` symbol records the start of its first token, an `endSolid` symbol the end of its
+    last token, an `endOk` symbol either has no end position or records the end of its last token -/
+theorem stack_invariant (g : Grammar) (hs : setsOk g = true) (i : Inst) (h : Reach g i) : Valid g i :=
+  reach_valid g hs i h
+
+open Pyx.OalTrack in
+/-- stamp_exact, any table: for every tracked production of the table whose result can be a statement /
+    expression node and every parse that reduces by it, the span `set_positional_info` stamps on the node is the
+    span of the tokens the production covers - offset and line of the first token's first character, offset after
+    and line of the last token's last character (columns and `character_stream` then follow by `span_exact`) -/
+theorem stamp_exact_table (g : Grammar) (hs : setsOk g = true) (hst : stampsOk g = true) (p : Prod)
+    (hp : p ∈ g.prods) (ht : p.tracked = true) (hc : p.carries = true) (kids : List Inst)
+    (hk : kids.map (·.sym) = p.rhs) (hr : ∀ k ∈ kids, Reach g k) :
+    ∃ s, stamp g.walkBack kids = some s ∧ joinTruth (kids.map (·.truth)) = some s := by
+  have hpo : prodStampOk g p = true := by
+    have := List.all_eq_true.mp hst p hp
+    simpa [ht, hc] using this
+  exact stamp_kids g p hpo kids hk (fun k hkm => reach_valid g hs k (hr k hkm))
+
+open Pyx.OalTrack in
+/-- stamp_exact for the grammar the source has now -/
+theorem stamp_exact (p : Prod) (hp : p ∈ Gen.OalTrack.grammar.prods) (ht : p.tracked = true)
+    (hc : p.carries = true) (kids : List Inst) (hk : kids.map (·.sym) = p.rhs)
+    (hr : ∀ k ∈ kids, Reach Gen.OalTrack.grammar k) :
+    ∃ s, stamp Gen.OalTrack.grammar.walkBack kids = some s ∧ joinTruth (kids.map (·.truth)) = some s :=
+  stamp_exact_table Gen.OalTrack.grammar grammar_sets_ok productions_stamp_ok p hp ht hc kids hk hr
+
+/-! non-vacuity: `else` (token at 6..10, line 2) followed by an EMPTY block, reduced while the lexer already
+    stands at offset 19, line 3 (behind `end if`): the ElseNode is stamped 6..10 on line 2, not ..19 -/
+open Pyx.OalTrack in
+example : stamp true [tokInst ⟨6, 10, 2, 2⟩, { sym := .n 2, attr := yaccAttr (19, 3) [], truth := joinTruth [] }]
+    = some ⟨6, 10, 2, 2⟩ ∧
+    stamp false [tokInst ⟨6, 10, 2, 2⟩, { sym := .n 2, attr := yaccAttr (19, 3) [], truth := joinTruth [] }]
+    = some ⟨6, 19, 2, 3⟩ := by decide
+
+open Pyx.OalTrack in
+example : (Gen.OalTrack.prods.filter fun p => p.tracked && p.carries).length > 0 := by decide +kernel
+
 
 end PyxProps.C13
